@@ -4,11 +4,14 @@ use crate::framework::{CheckDef, Tier};
 #[macro_use]
 pub mod common;
 pub mod c01;
+pub mod c02;
 pub mod c04;
 pub mod c06;
 pub mod c07;
 pub mod c08;
+pub mod c09;
 pub mod c10;
+pub mod c15;
 pub mod c16;
 pub mod c16_graphs;
 pub mod c17;
@@ -19,16 +22,19 @@ pub mod slice_oracles;
 pub mod standalone;
 pub mod stream_props;
 
-pub const ALL: &[&str] = &["C01", "C04", "C06", "C07", "C08", "C10", "C16", "C17", "C18", "C19"];
+pub const ALL: &[&str] = &["C01", "C02", "C04", "C06", "C07", "C08", "C09", "C10", "C15", "C16", "C17", "C18", "C19"];
 
 pub fn build(prop: &str, tier: Tier) -> Option<CheckDef> {
     match prop {
         "C01" => Some(c01::build(tier)),
+        "C02" => Some(c02::build(tier)),
         "C04" => Some(c04::build(tier)),
         "C06" => Some(c06::build(tier)),
         "C07" => Some(c07::build(tier)),
         "C08" => Some(c08::build(tier)),
+        "C09" => Some(c09::build(tier)),
         "C10" => Some(c10::build(tier)),
+        "C15" => Some(c15::build(tier)),
         "C16" => Some(c16::build(tier)),
         "C17" => Some(c17::build(tier)),
         "C18" => Some(c18::build(tier)),
